@@ -262,6 +262,13 @@ def build_cells(lib):
     out("qslst_restore_matrix", "operator_wrong_size", q.qslst_restore_matrix, img.copy(), np.eye(11), 0.1)
     out("qslst_restore_matrix", "operator_not_square", q.qslst_restore_matrix, img.copy(), np.ones((12, 11)), 0.1)
     inn("qslst_restore_matrix", "boundary_1x1", q.qslst_restore_matrix, np.ones((1, 1, 4)), np.eye(1), 0.5)
+    # documented domain: any real N x N operator of any rank, any lam >= 0 - incl. rank-deficient operators with lam far below the rounding level of A^T A
+    _Adup = np.arange(144, dtype=float).reshape(12, 12) % 7 - 3.0
+    _Adup[:, 5] = _Adup[:, 2]
+    for lam_ in (0.0, 1e-300, 1e-30, 1e-20, 1e-12, 0.1):
+        inn("qslst_restore_matrix", f"rank_deficient_operator_lam={lam_:g}", q.qslst_restore_matrix, img.copy(), _Adup.copy(), lam_)
+        inn("qslst_restore_matrix", f"zero_operator_lam={lam_:g}", q.qslst_restore_matrix, img.copy(), np.zeros((12, 12)), lam_)
+    inn("qslst_restore_matrix", "integer_operator", q.qslst_restore_matrix, img.copy(), np.eye(12, dtype=np.int64) * 2, 0.5)
     # ---------------- solvers
     A33 = spd_tall(3, 3)
     b3 = gen(3, 1, 7)
@@ -285,6 +292,13 @@ def build_cells(lib):
                 Atuple = tuple(_c for _c in np.moveaxis(A33, -1, 0))
                 out("QGMRESSolver.solve", f"mismatched_rhs_tupleA_rows={rows_}", (lambda A, b: sv.QGMRESSolver().solve(A, b)), Atuple, Q(gen(rows_, 1, 5)))
                 out("QGMRESSolver.solve", f"mismatched_rhs_tupleA_tupleb_rows={rows_}", (lambda A, b: sv.QGMRESSolver().solve(A, b)), Atuple, btuple)
+    # the same out-of-domain arguments with an exactly ZERO right-hand side (a "b = 0 => x = 0" shortcut must not come before the guards)
+    for prec_ in (None, "none", "left_lu"):
+        for rows_ in (1, 2, 4, 6):
+            out("QGMRESSolver.solve", f"mismatched_zero_rhs_rows={rows_}_prec={prec_}", (lambda p_: (lambda A, b: sv.QGMRESSolver(preconditioner=p_).solve(A, b)))(prec_), Q(A33), Q(np.zeros((rows_, 1, 4))))
+    for nm_ in ("ilu", "jacobi", "right_lu"):
+        out("QGMRESSolver.solve", f"unknown_option_preconditioner={nm_}_zero_rhs", (lambda p_: (lambda A, b: sv.QGMRESSolver(preconditioner=p_).solve(A, b)))(nm_), Q(A33), Q(np.zeros((3, 1, 4))))
+    out("QGMRESSolver.solve", "non_square_zero_rhs", lambda A, b: sv.QGMRESSolver().solve(A, b), Q(gen(3, 2)), Q(np.zeros((3, 1, 4))))
     out("QGMRESSolver.solve", "complex_dtype", lambda A, b: sv.QGMRESSolver().solve(A, b), cplx3.copy(), np.ones((3, 1), dtype=complex))
     out("QGMRESSolver.solve", "unknown_option_preconditioner", lambda A, b: sv.QGMRESSolver(preconditioner="ilu").solve(A, b), Q(A33), Q(b3))
     inn("QGMRESSolver.solve", "boundary_1x1", lambda A, b: sv.QGMRESSolver().solve(A, b), Q(spd_tall(1, 1)), Q(gen(1, 1, 3)))
